@@ -76,3 +76,276 @@ PROPS['C07'] = dict(
     rule='exhaustive products of <= 4 (thorough 5) namespace / subpath pieces from {a, empty, ., .., %2e, %2E, .%2e, %2F, %2f, %5C, "b c"}, token language, random spellings, corpus; '
          'namespace and subpath of every accepted string compared between model and crate',
 )
+
+# ------------------------------------------------------------------ helpers for the remaining properties
+def both(sel):
+    def proj(c, line, is_impl): return sel(c, line.split(' ## '))
+    return proj
+def whole(c, line, is_impl): return line
+def err_class(c, p):     # acceptance or the error variant only
+    return 'O' if p[0].startswith('O ') else p[0]
+def chain(*gs):
+    for g in gs: yield from g
+Q = lambda tier, a, b: a if tier == 'quick' else b
+
+# ------------------------------------------------------------------ C02
+PROPS['C02'] = dict(
+    accepts=lambda c: c[0] in 'PS' and kind_of(c) in 'gst',
+    gen=lambda tier, rng: chain(gens.gen_spell(rng, Q(tier, 60000, 600000), ('g', 't', 's')), gens.gen_corpus(rng, Q(tier, 2000, 30000), ('g', 't')),
+                                gens.gen_tok(Q(tier, {'head': 3, 'path': 3, 'qual': 3, 'sub': 3, 'seg': 3, 'typed': 3}, TOK_T), ('g', 't'))),
+    project=both(lambda c, p: p[0]),
+    rule='random component tuples with random legal spellings (case, raw/escaped bytes in either hex case, extra slashes, dot segments, qualifier order, '
+         'interleaved empty qualifiers, raw @ ? # left of the separator, checksum entry order and case), expected tuple carried with the case; token language and corpus; '
+         'the full parse outcome compared in both directions',
+)
+# ------------------------------------------------------------------ C03
+def c03_sel(c, p):
+    return p[0]
+PROPS['C03'] = dict(
+    accepts=lambda c: c[0] in 'PSB',
+    gen=lambda tier, rng: chain(gens.gen_byte(pairs=True, kinds=('g',)), gens.gen_byte(pairs=False, kinds=('t', 's', 'b')),
+                                gens.gen_build(rng, Q(tier, 20000, 300000), 1), gens.gen_spell(rng, Q(tier, 20000, 200000), ('g', 't'))),
+    project=impl_accepts(c03_sel), exhaustive=False,
+    rule='exhaustive: every ASCII byte and every ASCII pair (plus 2-, 3-, 4-byte scalars) in each of the 5 component positions through the builder; '
+         'random builder sequences and parsed spellings; accessors and canonical string compared, and an independent renderer of the documented shape in the oracle',
+)
+# ------------------------------------------------------------------ C04
+def c04_sel(c, p):
+    return p[-1] if c.startswith('H ') else p[0]
+PROPS['C04'] = dict(
+    accepts=lambda c: c[0] in 'PSBH',
+    gen=lambda tier, rng: chain(parse_stream(tier, rng, ('g', 't', 's'), {'head': 3, 'path': 3, 'qual': 3, 'sub': 3}, {'head': 4, 'path': 4, 'qual': 4, 'sub': 4}, (15000, 200000), (2000, 30000)),
+                                gens.gen_build(rng, Q(tier, 30000, 400000), 1, ('g', 't', 's', 'b', 'o')), gens.gen_shape(rng, Q(tier, 3000, 50000))),
+    project=lambda c, line, is_impl: (lambda p: (p[-1] if c.startswith('H ') else p[0]))(line.split(' ## ')) if True else None,
+    rule='parser streams, builder call sequences for String / Cow borrowed / Cow owned / SmallString / PackageType, and the family of user-written shapes '
+         '(3 conversions x 3 type renderings x 29 hook programs); the value handed out compared; invariant evaluated by the oracle on every value',
+)
+# ------------------------------------------------------------------ C05
+PROPS['C05'] = dict(
+    accepts=lambda c: c[0] in 'PSX' and kind_of(c) in 'gt',
+    gen=lambda tier, rng: chain(gens.gen_fault(rng, Q(tier, 60000, 600000)), gens.gen_tok(Q(tier, TOK_Q, TOK_T), ('g', 't')), gens.gen_corpus(rng, Q(tier, 3000, 50000), ('g', 't')),
+                                gens.gen_spell(rng, Q(tier, 5000, 50000))),
+    project=both(err_class),
+    rule='legal spellings with exactly one injected fault of each listed kind (13 kinds, every spelling of the fault incl. 12 invalid UTF-8 patterns) with the expected error carried; '
+         'token language; corpus mutations; acceptance / error variant compared in both directions',
+)
+# ------------------------------------------------------------------ C06
+def c06_proj(c, line, is_impl):
+    if c[0] == 'Q':
+        outs = line.split('|')[0].split(',')
+        return tuple(i for i, o in enumerate(outs) if o == 'PANIC')
+    return ('PANIC' in line, '!' in line.split(' ## ')[0][-2:], line.endswith('|P') or '|P|' in line)
+def c06_long(rng, n):
+    base = gens.corpus_strings()
+    for i in range(n):
+        s = rng.choice(base)
+        big = rng.choice(['a', '/', '%41', 'é', '&k=v', '/..', '%2F', ',a:00', '@', '#', '?']) * rng.choice([1000, 20000, 150000])
+        pos = rng.randint(0, len(s))
+        yield f'P {rng.choice("gt")} {gens.hx(s[:pos] + big + s[pos:])}'
+PROPS['C06'] = dict(
+    accepts=accepts_all,
+    gen=lambda tier, rng: chain(gens.gen_tok(Q(tier, {'head': 3, 'path': 3, 'qual': 3, 'sub': 3}, TOK_T), ('g', 't')), gens.gen_fault(rng, Q(tier, 10000, 100000)),
+                                gens.gen_corpus(rng, Q(tier, 3000, 50000)), gens.gen_build(rng, Q(tier, 15000, 200000), 1, ('g', 't', 's', 'b', 'o')),
+                                gens.gen_qops(rng, Q(tier, 3000, 50000)), gens.gen_cs(rng, Q(tier, 3000, 50000)), gens.gen_pt(rng, 500, 2), gens.gen_comb(rng, 500),
+                                c06_long(rng, Q(tier, 0, 60))),
+    project=c06_proj,
+    rule='every case of every other stream runs under catch_unwind in a build with overflow checks and debug assertions; the observable is where PANIC occurs; '
+         'documented panics (Index of an absent key, insert_typed with an invalid KEY, Display of an invalid user type) are predicted by the model',
+    assumptions=['panics inside dependencies (smartstring, percent-encoding, hex, phf, unicase, std), allocation failure and stack exhaustion are outside the model'],
+)
+# ------------------------------------------------------------------ C08
+def c08_gen(tier, rng):
+    def pairs(g):
+        for l in g:
+            a = l.split(' ')
+            if a[0] in 'PS' and a[1] == 't':
+                yield 'P g ' + a[-1]
+                yield 'P t ' + a[-1]
+            else:
+                yield l
+    yield from pairs(gens.gen_names(rng, tier))
+    yield from pairs(gens.gen_spell(rng, Q(tier, 10000, 100000), ('t',)))
+    yield from pairs(gens.gen_tok(Q(tier, {'typed': 4}, {'typed': 5}), ('t',)))
+    yield from pairs(gens.gen_corpus(rng, Q(tier, 1000, 20000), ('t',)))
+    for i in range(7):
+        for ns in ['', '/', '//', 'a', 'a//b', '/a/']:
+            for nm in ['n', 'A_.-b', 'Æǅ', '']:
+                yield f'B t {i} {gens.hx(nm)} S:{gens.hx(ns)}'
+def c08_project():
+    st = {}
+    def proj(c, line, is_impl):
+        a = c.split(' ')
+        side = 'i' if is_impl else 'm'
+        m = main(line)
+        if a[0] == 'P' and a[1] == 'g':
+            st[side] = (a[-1], m); return 'g'
+        f = fields(m)
+        if a[0] == 'B':
+            return (f[0], f[2]) if f else m
+        rel = None
+        g = st.get(side)
+        if g and g[0] == a[-1]:
+            gf = fields(g[1])
+            if f and gf: rel = (f[1], f[3], f[4], f[5]) == (gf[1], gf[3], gf[4], gf[5]) and f[0] == gf[0]
+            elif f and not gf: rel = False
+            elif gf and not f: rel = m if m in ('E UnsupportedType', 'E PMissing(namespace)') else False
+            else: rel = True
+        return ((f[0], f[2]) if f else ('E' if not m.startswith('E Un') and not m.startswith('E PM') else m), rel)
+    return proj
+PROPS['C08'] = dict(
+    accepts=lambda c: c[0] in 'PSB' and kind_of(c) == 't',
+    gen=c08_gen, project=c08_project(),
+    rule='names: every string of length <= 4 (thorough 5) over {a A 1 - _ . AE-ligature titlecase-dz}, single scalar values (quick: Latin/Greek/Cyrillic/extended blocks, '
+         'all special cases and 3000 random; thorough: all 1.1M) through parser and builder for nuget, pypi, cargo; typed vs type-agnostic parse of the same string; '
+         'observable: typed type and name, and whether the other fields equal the type-agnostic ones',
+)
+# ------------------------------------------------------------------ C09
+PROPS['C09'] = dict(
+    accepts=lambda c: c[0] == 'B' and kind_of(c) in 'gt',
+    gen=lambda tier, rng: chain(gens.gen_build(rng, Q(tier, 60000, 800000), Q(tier, 1, 2), ('g', 't')), gens.gen_byte(pairs=False, kinds=('g', 't'))),
+    project=both(lambda c, p: (p[0], p[1])),
+    rule='builder call sequences: exhaustive for length <= 1 (thorough 2) over ~330 operations on a universe of 14 field values, 12 keys x 9 values, typed checksums, '
+         'direct edits; random sequences of 2-10 calls with arbitrary strings; outcome, accessors, canonical string and its re-parse compared in both directions; '
+         'an independent last-write-wins reference in the oracle',
+)
+# ------------------------------------------------------------------ C10
+PROPS['C10'] = dict(
+    accepts=lambda c: c[0] in 'PSB',
+    gen=lambda tier, rng: chain(parse_stream(tier, rng, ('g', 't', 's'), {'head': 3, 'path': 3, 'qual': 3, 'sub': 3, 'typed': 3}, TOK_T, (15000, 200000), (2000, 30000)),
+                                gens.gen_build(rng, Q(tier, 30000, 400000), 1, ('g', 't', 's', 'b', 'o')), gens.gen_names(rng, 'quick')),
+    project=impl_accepts(lambda c, p: (p[0], p[2])),
+    rule='every PURL produced by the parser and builder streams, for String, SmallString, Cow borrowed/owned and PackageType: value and result of into_builder().build() compared',
+)
+# ------------------------------------------------------------------ C11
+PROPS['C11'] = dict(
+    accepts=lambda c: c[0] in 'QF',
+    gen=lambda tier, rng: gens.gen_qops(rng, Q(tier, 20000, 400000)),
+    project=whole, exhaustive=False,
+    rule='exhaustive: every content over keys {a, b, a.b} x values {absent, empty, x, y} x every operation of a universe of ~330 (13 keys incl. case variants and invalid ones), '
+         'all ordered pairs of operations (every third as second); random sequences of 3-25 operations over arbitrary strings; try_from_iter; every returned value, '
+         'forward and backward iteration and length compared; BTreeMap reference in the oracle',
+)
+# ------------------------------------------------------------------ C12
+def c12_proj(c, line, is_impl):
+    if c[0] in 'Cc': return line
+    f = fields(main(line))
+    if is_impl and not f: return None
+    return f[4] if f else main(line)
+def c12_purls(rng, n):
+    for _ in range(n):
+        t = gens.random_tuple(rng)
+        cs = {}
+        for _ in range(rng.randint(1, 4)):
+            cs[rng.choice(['sha1', 'sha256', 'md5', 'b2', 'x-y', 'é1', 'ǆ', 'a'])] = bytes(rng.randrange(256) for _ in range(rng.choice([0, 1, 2, 4])))
+        t['cs'] = cs
+        t['quals']['checksum'] = ','.join(f'{a}:{cs[a].hex()}' for a in sorted(cs, key=lambda a: a.encode()))
+        yield f'S g {gens.tuple_exp(t)} {gens.hx(gens.spelling_of(rng, t))}'
+        ops = '+'.join(f'i.{gens.hx(gens.rcase(rng, a) if a.isascii() else a)}.{b.hex() or "-"}' for a, b in rng.sample(list(cs.items()), len(cs)))
+        yield f'B g {gens.hx("t")} {gens.hx("n")} C:{ops}'
+        yield f'Q tC:{ops},tG'
+PROPS['C12'] = dict(
+    accepts=lambda c: c[0] in 'CcPSBQ',
+    gen=lambda tier, rng: chain(gens.gen_cs(rng, Q(tier, 30000, 400000)), c12_purls(rng, Q(tier, 10000, 100000))),
+    project=c12_proj,
+    rule='checksum operation sequences (insert / insert_raw / remove over 15 algorithm spellings incl. case variants, titlecase letters, empty and non-ASCII), texts, '
+         'PURLs and builders carrying the same entry set in random order and case; entries, canonical text, parse-back and typed decode compared; '
+         'the model fixes no iteration order (theorem over all permutations), each run uses fresh RandomState seeds',
+)
+# ------------------------------------------------------------------ C13
+PROPS['C13'] = dict(
+    accepts=lambda c: c[0] in 'PSB' and kind_of(c) in 'gsbo',
+    gen=lambda tier, rng: chain((l for l in parse_stream(tier, rng, ('g', 's'), {'head': 3, 'path': 3, 'qual': 2, 'sub': 2}, TOK_T, (10000, 100000), (2000, 20000))),
+                                gens.gen_build(rng, Q(tier, 30000, 300000), 1, ('g', 's', 'b', 'o'))),
+    project=both(lambda c, p: p[0]),
+    rule='parser streams for String and SmallString; builder sequences for String, Cow::Borrowed, Cow::Owned, SmallString on arbitrary (also invalid) type strings; '
+         'each compared with the one model function, and pairwise with each other by the oracle',
+)
+# ------------------------------------------------------------------ C14
+PROPS['C14'] = dict(
+    accepts=lambda c: c[0] == 'H',
+    gen=lambda tier, rng: gens.gen_shape(rng, Q(tier, 10000, 200000)),
+    project=whole,
+    rule='family of user-written shapes: conversion {always, never, only "custom"} x type rendering {lower-cased, raw, invalid} x 29 hook programs (fail, clear name, '
+         'rewrite namespace/version/subpath, insert empty/valid/malformed qualifiers and checksums, mutate the type, combinations) x 19 parser inputs and builder inputs, '
+         'plus random members and spellings; call log (arguments included), result and accessors compared with the model instantiated at the same member',
+)
+# ------------------------------------------------------------------ C15
+PROPS['C15'] = dict(
+    accepts=lambda c: c[0] == 'T',
+    gen=lambda tier, rng: gens.gen_pt(rng, Q(tier, 5000, 100000), Q(tier, 3, 4)),
+    project=whole, exhaustive=False,
+    rule='exhaustive: all 192 case variants of the 7 names; every string of length <= 3 (thorough 4) over the letters of the names plus look-alikes '
+         '(long s, Kelvin sign, dotless i, dotted I, full-width letters, sharp s); one-edit neighbours; the other PURL type names; random strings',
+)
+# ------------------------------------------------------------------ C16 (needs the serde build)
+def serde_extra(cases, impl, model, run_sharded, HAR, CACHE, pid):
+    har = f'{CACHE}/target-serde/release/vharness'
+    import random as _r
+    rng = _r.Random(int(os.environ.get('VERIF_SEED', '1')))
+    jc = list(gens.gen_serde(rng, 20000 if os.environ.get('VERIF_TIER_EFFECTIVE') == 'thorough' else 4000))
+    out = run_sharded(f'{har} oracle', jc, f'{pid}.serde')
+    bad = [i for i, o in enumerate(out) if o.startswith('FAIL') and 'C16' in o]
+    res = dict(serde_cases=len(jc))
+    if bad:
+        i = min(bad, key=lambda j: len(jc[j]))
+        res['broken'] = [f'serde oracle: {len(bad)} JSON inputs violate C16']
+        res['failing'] = dict(case=jc[i], printable=' '.join(jc[i].split(' ')[:2]) + ' ' + bytes.fromhex(jc[i].split(' ')[2]).decode('utf-8', 'replace'), oracle=out[i],
+                              replay_with=f'{har} oracle')
+    return res
+PROPS['C16'] = dict(
+    accepts=lambda c: c[0] in 'PS' and kind_of(c) in 'gt',
+    features=(('serde', '--features serde'),),
+    gen=lambda tier, rng: parse_stream(tier, rng, ('g', 't'), {'head': 3, 'path': 3, 'qual': 2, 'sub': 2}, {'head': 4, 'path': 4, 'qual': 3, 'sub': 3}, (10000, 100000), (2000, 20000)),
+    project=impl_accepts(lambda c, p: (p[0], p[1])), extra=serde_extra,
+    rule='the C01 tie (parse, canonical string, re-parse) on the parser streams, plus, in a build with the serde feature, JSON texts of corpus strings and random spellings '
+         '(escaped and raw), and non-string JSON values: deserialise = parse, serialise = canonical string, non-strings refused (oracle with serde_json)',
+    assumptions=['JSON string escaping by serde_json is trusted; the derive-free impls are checked to be collect_str / visit_str by behaviour only'],
+)
+# ------------------------------------------------------------------ C17
+FEATS = (('nodef', '--no-default-features'), ('pt', '--no-default-features --features pt'), ('serde', '--features serde'))
+def c17_extra(cases, impl, model, run_sharded, HAR, CACHE, pid):
+    res = dict(programs=4, transcripts={})
+    broken = []
+    for name, _ in FEATS:
+        out = run_sharded(f'{CACHE}/target-{name}/release/vharness run', cases, f'{pid}.{name}')
+        diff = [i for i, (a, b) in enumerate(zip(impl, out)) if b != 'SKIP' and a != b]
+        res['transcripts'][name] = dict(cases=len(out), skipped=sum(1 for b in out if b == 'SKIP'), differences=len(diff))
+        if diff:
+            i = min(diff, key=lambda j: len(cases[j]))
+            broken.append(f'feature set {name}: {len(diff)} outcome lines differ from the default build')
+            res['failing'] = dict(case=cases[i], printable=cases[i], default_features=impl[i], other=out[i], feature_set=name)
+    if broken: res['broken'] = broken
+    return res
+PROPS['C17'] = dict(
+    level='translation_validation', corpus=True,
+    accepts=lambda c: c[0] in 'PSXBQFCc',
+    features=FEATS,
+    gen=lambda tier, rng: chain(gens.gen_tok(Q(tier, {'head': 3, 'path': 3, 'qual': 3, 'sub': 3}, TOK_T), ('g', 's', 't')), gens.gen_spell(rng, Q(tier, 20000, 200000), ('g', 's', 't')),
+                                gens.gen_fault(rng, Q(tier, 10000, 100000)), gens.gen_build(rng, Q(tier, 20000, 200000), 1, ('g', 's', 'b', 'o', 't')),
+                                gens.gen_qops(rng, Q(tier, 2000, 20000)), gens.gen_cs(rng, Q(tier, 2000, 20000))),
+    project=whole,
+    rule='one deterministic stream (token language, seeded spellings, faults, builder, qualifier and checksum sequences) run through the harness built with '
+         '{default}, {no features}, {package-type}, {default+serde}; every transcript compared line by line with the default one and with the extracted model '
+         '(the typed API only where it exists); error texts are compared through their variants',
+    assumptions=['feature selection is a build-time fact below the model: the Coq content is only that the model is one deterministic function'],
+)
+# ------------------------------------------------------------------ C18
+PROPS['C18'] = dict(
+    accepts=lambda c: c[0] == 'N',
+    gen=lambda tier, rng: gens.gen_comb(rng, Q(tier, 30000, 400000)),
+    project=whole,
+    rule='combined names with any number of "/" and ":" for the seven types (20 fixed shapes each, random strings); split, built PURL, combined_name and its re-split compared',
+)
+# ------------------------------------------------------------------ C19
+PROPS['C19'] = dict(
+    accepts=lambda c: c[0] == 'K',
+    gen=lambda tier, rng: gens.gen_pair(rng, Q(tier, 40000, 500000)),
+    project=whole,
+    rule='pairs of PURLs biased to near-collisions (two spellings of one tuple, one character changed, a separator moved between neighbouring fields, values with & and =, '
+         'parser vs builder) for String, SmallString, Cow and PackageType: ==, cmp compared with the model, and ==/hash/cmp/partial_cmp against canonical-string equality in the oracle',
+)
+
+# theorem names are read from the props files (each Theorem there is followed by Print Assumptions)
+for _pid, _s in PROPS.items():
+    _f = os.path.join(os.path.dirname(os.path.abspath(__file__)), '..', 'coq', 'props', _pid + '.v')
+    _s.setdefault('theorems', re.findall(r'^Theorem (\w+)', open(_f).read(), re.M) if os.path.exists(_f) else [])
